@@ -409,3 +409,57 @@ Definition compatible (vs : versions) (vmin vmax : Z * Z) (d : db) : bool :=
   | Some v => vle vmin v && vle v vmax
   | None => false
   end.
+
+(* ------------------------------------------------------------------ comparison with the implementation
+   (used only by the generated correspondence cases and by Gen/C36Gen.v) *)
+Fixpoint list_eqb {A} (eq : A -> A -> bool) (a b : list A) : bool :=
+  match a, b with
+  | [], [] => true
+  | x :: a', y :: b' => eq x y && list_eqb eq a' b'
+  | _, _ => false
+  end.
+
+Definition col_eqb (a b : column) : bool :=
+  String.eqb (c_name a) (c_name b) && String.eqb (c_type a) (c_type b) && Bool.eqb (c_null a) (c_null b).
+Definition binding_eqb (a b : string * val) : bool := String.eqb (fst a) (fst b) && val_eqb (snd a) (snd b).
+Definition row_eqb : row -> row -> bool := list_eqb binding_eqb.
+Definition count_row (r : row) (l : list row) : nat := List.length (filter (row_eqb r) l).
+(** Same rows as multisets (SQL tables are unordered). *)
+Definition rows_perm (a b : list row) : bool :=
+  Nat.eqb (List.length a) (List.length b) && forallb (fun r => Nat.eqb (count_row r a) (count_row r b)) a.
+Definition table_agrees (T want : table) : bool :=
+  list_eqb col_eqb (t_cols T) (t_cols want) && rows_perm (t_rows T) (t_rows want).
+Definition index_eqb (a b : index) : bool :=
+  String.eqb (i_name a) (i_name b) && String.eqb (i_table a) (i_table b) &&
+  list_eqb String.eqb (i_cols a) (i_cols b) && Bool.eqb (i_unique a) (i_unique b).
+Definition indexes_agree (a b : list index) : bool :=
+  Nat.eqb (List.length a) (List.length b) && forallb (fun i => existsb (index_eqb i) b) a.
+
+Definition db_agrees (res : result db) (want : db) : bool :=
+  match res with
+  | Ok d =>
+      String.eqb (d_rev d) (d_rev want) &&
+      Nat.eqb (List.length (d_tables d)) (List.length (d_tables want)) &&
+      forallb (fun kt => match lookup (fst kt) (d_tables d) with
+                         | Some T => table_agrees T (snd kt)
+                         | None => false
+                         end) (d_tables want) &&
+      indexes_agree (d_indexes d) (d_indexes want)
+  | Err _ => false
+  end.
+
+Inductive expect_err := XNotNull (c : string) | XBadTask.
+Definition err_agrees (res : result db) (x : expect_err) : bool :=
+  match res, x with
+  | Err (ENotNull _ c), XNotNull c' => String.eqb c c'
+  | Err (EBadTaskName _ _), XBadTask => true
+  | _, _ => false
+  end.
+
+(** The library's ORM classes (table -> (column, nullable)), order-insensitive. *)
+Definition cols_match (cs : list column) (want : list (string * bool)) : bool :=
+  Nat.eqb (List.length cs) (List.length want) &&
+  forallb (fun w => existsb (fun c => String.eqb (c_name c) (fst w) && Bool.eqb (c_null c) (snd w)) cs) want.
+Definition schema_matches (s : list (string * list column)) (want : list (string * list (string * bool))) : bool :=
+  Nat.eqb (List.length s) (List.length want) &&
+  forallb (fun w => match lookup (fst w) s with Some cs => cols_match cs (snd w) | None => false end) want.
